@@ -22,7 +22,7 @@ PROPS = {
         'explanation': 'WhitespaceDelimitedArgumentReader::next is verified (body verbatim after R2/R7/R3) to return exactly what the reference tokenizer tok() of the statement prescribes on the abstract stream pending++unread, for every sequence of read() results (chunk independence is part of the postcondition), to leave the rest of the stream intact, to err only on an unterminated quote or a failed read, and to terminate; ByteDelimitedArgumentReader::next likewise against btoks() (split at the delimiter only, empty fields skipped).',
         'assumptions': [
             'read(2) contract for Read::read behind the EINTR retry loop (R7) and BufRead::read_until (bytes through the first delimiter, chunk independent)',
-            'String::from_utf8_lossy is the identity on valid UTF-8 (input that is not valid UTF-8 is altered: finding D6, reported under C07 where byte-exactness is claimed)',
+            'OsString::from_vec keeps the bytes (unix)',
             'parse_delimiter / delimiter selection in normalize_options: see unit xopts',
         ],
         'not_decided': ['the 4096-byte buffer edge and multi-byte characters need no special treatment: the proof is over bytes and arbitrary chunk sizes'],
@@ -50,11 +50,10 @@ PROPS = {
         'not_decided': [],
     },
     'C07': {
-        'level': 'other',
-        'explanation': 'Printer::print writes exactly lossy(path) followed by the delimiter (unit print); ByteDelimitedArgumentReader::next splits only at NUL and passes every other byte through from_utf8_lossy (unit xread); execute passes initial ++ extra arguments unchanged to Command::args (unit xexec).  Byte-exactness holds for valid UTF-8 only: the lossy conversions alter other input (known finding D6).',
-        'assumptions': ['to_string_lossy / from_utf8_lossy are the identity on valid UTF-8', 'Command::args appends its arguments unchanged', 'the path of an entry is the starting point joined with the names below it (walkdir)'],
-        'not_decided': ['the composition find | xargs as a lemma over the two contracts (L-c07) is stated in DESIGN.md, not machine-checked'],
-        'unclaimed': True,
+        'level': 'proof',
+        'explanation': 'Printer::print writes exactly lossy(path) followed by the delimiter (unit print); ByteDelimitedArgumentReader::next splits only at NUL and passes every other byte through unchanged (unit xread); execute passes initial ++ extra arguments unchanged to Command::args (unit xexec).  Lemma L-c07 (machine-checked): for non-empty NUL-free strings, splitting p0 NUL p1 NUL ... at NUL yields exactly p0, p1, ... (one argument each, in order).',
+        'assumptions': ['Path::to_string_lossy is the identity on valid UTF-8 names (find side)', 'Command::args appends its arguments unchanged', 'the path of an entry is the starting point joined with the names below it (walkdir)'],
+        'not_decided': ['names that are not valid UTF-8 are outside the statement (find prints them lossily)'],
     },
     'C14': {
         'level': 'proof',
@@ -138,6 +137,12 @@ PROPS = {
         'explanation': 'MultiExecMatcher (real bodies, the RefCell as an opaque cell with per-call transition obligations, R8): matches is always true and puts the path (./basename under -execdir) into exactly one invocation, after the paths already collected: (batches dispatched by the call) ++ (batch still pending) == (pending before) ++ [path]; a batch is dispatched early only when argmax refuses the path, unchanged, under -execdir from the entry\'s directory; run_command turns find\'s exit status non-zero when an invocation fails or cannot start and never resets it; finished_dir flushes and empties an -execdir batch from that directory, finished the -exec batch; process_dir calls finished_dir before leaving a directory and both hooks after the loop, also after -quit, and offers each entry while current_dir is its parent (unit walk); the -exec arm of the parser recognises `{} +` and the single-{} rule (unit parse).',
         'assumptions': ['argmax::Command::try_arg (Ok: appended and still within the limits it computes; Err: unchanged) and that its accounting implies acceptance by execve', 'RefCell: the value persists between calls and no second borrow is live (syntactic: nothing called while the guard lives reaches self.command)', 'std::path file_name/parent/join uninterpreted'],
         'not_decided': ['OS acceptance of a batch (argmax), process spawning'],
+    },
+    'C17': {
+        'level': 'other',
+        'explanation': 'RegexType::from_str is the name table of the statement (emacs default, grep, posix-basic, posix-extended, ed and sed as posix-basic); RegexMatcher::new compiles the pattern in the syntax the type names with the ignore-case flag for -iregex; build_matcher_tree gives every -regex the type set by the nearest preceding -regextype, also across parentheses (reference grammar threads rt); matches hands the whole path as -print shows it to the engine and a reported match is a member of the language (never a prefix or substring). Completeness for patterns with alternation does not hold (known finding D12), hence level other.',
+        'assumptions': ["onig: Regex::with_options compiles the pattern in the given syntax; is_match accepts only whole-text matches (soundness); its result is otherwise an uninterpreted function of (pattern, flag, syntax, text)"],
+        'not_decided': ['language membership itself (onig)'],
     },
 }
 for k in PROPS.values():
